@@ -3,6 +3,7 @@ package main
 // publisher / _subscription tables and the in-order-exactly-once structure (C05).
 
 import (
+	"go/token"
 	"fmt"
 	"go/types"
 	"strings"
@@ -122,11 +123,23 @@ func checkSubscriptionTable(c *Ctx) {
 	if sf := c.mustFunc("", "_subscription.send"); sf != nil {
 		ps := (&Walker{P: c.P}).FuncRegion(sf)
 		c.paths += len(ps)
-		ok := len(ps) == 2
+		ok := len(ps) >= 2
 		for _, pa := range ps {
+			seenMain, polledStopping := false, false
 			for _, e := range pa.Effects {
 				if e.Kind == "select" {
-					if !e.Blocking || len(e.Sel) != 2 {
+					if !e.Blocking {
+						// a guard clause polling the own stopping channel is fine
+						if len(e.Sel) == 1 && e.Sel[0].Send == nil && e.Sel[0].Chan.K == "invoke" && e.Sel[0].Chan.S == "ShuttingDown" && e.Sel[0].Chan.A[0].IsRecvField("lc") {
+							if e.Arm >= 0 {
+								polledStopping = true
+							}
+							continue
+						}
+						ok = false
+						continue
+					}
+					if len(e.Sel) != 2 {
 						ok = false
 						continue
 					}
@@ -142,7 +155,17 @@ func checkSubscriptionTable(c *Ctx) {
 					if !hasSend || !hasStop {
 						ok = false
 					}
+					seenMain = true
 				} else if !e.IsPure() && e.Kind != "rundefers" {
+					ok = false
+				}
+			}
+			if !seenMain {
+				// only after having seen the subscription stopping, and only to say so
+				notRunning := pa.End.Kind == "return" && len(pa.End.Results) == 1 && termContains(pa.End.Results[0], func(x *Term) bool {
+					return (x.K == "load" || x.K == "global") && strings.Contains(x.Key(), "ErrNotRunning")
+				})
+				if !polledStopping || !notRunning {
 					ok = false
 				}
 			}
@@ -163,7 +186,9 @@ func checkPublisherTable(c *Ctx) {
 		c.undecided(rule, "publisher.run/shape", pos, "no actor loop found")
 		return
 	}
-	paths := (&Walker{P: c.P, Inline: autoInline(c.P, fn, 12)}).IterRegion(fn, loop)
+	inl := autoInline(c.P, fn, 12)
+	inlineOwnedLoopHelpers(c.P, fn, loop, inl) // the post-loop drain may live in a helper
+	paths := (&Walker{P: c.P, Inline: inl}).IterRegion(fn, loop)
 	isParent := func(t *Term) bool { return t.IsRecvField("parent") }
 	armOf := func(pa *Path) (string, *Effect) {
 		for _, e := range pa.Effects {
@@ -444,7 +469,16 @@ func checkPublisherFanout(c *Ctx) {
 		c.check(ok, rule, "publisher.createSubscription/build-register-return", c.P.fnPos(fn), "", "createSubscription: "+detail)
 	}
 	// unsubscribe watcher: waits for sub.Done or ShuttingDown (then Close + wait), then sends exactly that sub on unsubscribech
-	if cl := c.mustFunc("", "publisher.createSubscription$1"); cl != nil {
+	var watcher *subFunc
+	if fn := c.P.Func("", "publisher.createSubscription"); fn != nil {
+		watcher = pickSub(goBodiesOf(fn), func(s *subFunc) bool { return sendsOnField(s.Fn, "unsubscribech") })
+		if watcher == nil {
+			c.fail("T-FLOW(createSubscription)", "publisher.createSubscription/watcher/unsubscribes-its-own-subscription-once", c.P.fnPos(fn), "createSubscription starts no goroutine that reports the subscription's end on unsubscribech")
+		}
+	}
+	if watcher != nil {
+		cl := watcher.Fn
+		c.useFn(cl)
 		rule := "T-FLOW(createSubscription)"
 		paths := (&Walker{P: c.P}).FuncRegion(cl)
 		c.paths += len(paths)
@@ -455,8 +489,17 @@ func checkPublisherFanout(c *Ctx) {
 				switch e.Kind {
 				case "send":
 					sends++
-					if !(e.Addr.IsField("unsubscribech") && (e.Val.K == "freevar" || e.Val.K == "load")) {
+					if !e.Addr.IsField("unsubscribech") {
 						ok = false
+					}
+					// the value sent is the subscription created by createSubscription
+					if sd, oks := e.In.(*ssa.Send); oks {
+						o := watcher.outer(sd.X)
+						if o == nil {
+							ok = false
+						} else if call, okc := storedValue(o).(*ssa.Call); !okc || call.Call.StaticCallee() == nil || fnName(call.Call.StaticCallee()) != "newSubscription" {
+							ok = false
+						}
 					}
 				case "go":
 					ok = false
@@ -466,7 +509,7 @@ func checkPublisherFanout(c *Ctx) {
 				ok = false
 			}
 		}
-		c.check(ok, rule, "publisher.createSubscription$1/unsubscribes-its-own-subscription-once", c.P.fnPos(cl), "", "the unsubscribe watcher does not send exactly its own subscription once on unsubscribech")
+		c.check(ok, rule, "publisher.createSubscription/watcher/unsubscribes-its-own-subscription-once", c.P.fnPos(cl), "", "the unsubscribe watcher does not send exactly its own subscription once on unsubscribech")
 	}
 }
 
@@ -496,11 +539,8 @@ func checkEventPathSingleSender(c *Ctx) {
 						}
 					}
 					for _, ch := range chans {
-						if u, ok := ch.(*ssa.UnOp); ok {
-							if fa, ok := u.X.(*ssa.FieldAddr); ok {
-								key := typeNameOf(fa.X.Type()) + "." + structFieldName(fa.X.Type(), fa.Field)
-								sends[key] = append(sends[key], site{fnName(f), in})
-							}
+						for _, key := range chanFieldKeys(c.P, ch, 0) {
+							sends[key] = append(sends[key], site{fnName(f), in})
 						}
 					}
 				}
@@ -668,4 +708,48 @@ func goCarriesEvents(g *ssa.Go) bool {
 		}
 	}
 	return false
+}
+
+// chanFieldKeys: the struct fields ("T.field") a channel value is read from — directly, or, for a
+// parameter of a private function, at every call site (a field handed to a helper as an argument
+// is still that field).
+func chanFieldKeys(p *Prog, ch ssa.Value, depth int) []string {
+	if depth > 3 {
+		return nil
+	}
+	switch x := ch.(type) {
+	case *ssa.UnOp:
+		if fa, ok := x.X.(*ssa.FieldAddr); ok && x.Op == token.MUL {
+			return []string{typeNameOf(fa.X.Type()) + "." + structFieldName(fa.X.Type(), fa.Field)}
+		}
+	case *ssa.ChangeType:
+		return chanFieldKeys(p, x.X, depth+1)
+	case *ssa.Phi:
+		var out []string
+		for _, e := range x.Edges {
+			out = append(out, chanFieldKeys(p, e, depth+1)...)
+		}
+		return out
+	case *ssa.Parameter:
+		fn := x.Parent()
+		if fn == nil || fn.Parent() != nil || fn.Object() == nil || fn.Object().Exported() {
+			return nil
+		}
+		idx := -1
+		for i, pr := range fn.Params {
+			if pr == x {
+				idx = i
+			}
+		}
+		var out []string
+		for _, site := range p.callersOf(fn) {
+			ci, ok := site.In.(ssa.CallInstruction)
+			if !ok || site.Kind == "value" || idx < 0 || idx >= len(ci.Common().Args) {
+				continue
+			}
+			out = append(out, chanFieldKeys(p, ci.Common().Args[idx], depth+1)...)
+		}
+		return out
+	}
+	return nil
 }
